@@ -17,6 +17,14 @@
 //!                                           -> N=<n> OK | N=<n> ERR | N=- NOKEY
 //! cfgvmess  \t net \t Variant                 vmess client codec constructor of one flow (tcp: tcp::new_codec, udp: udp::new_codec)
 //!                                           with that configured kind -> OK | ERR (cipher refused)
+//! cfgvmid   \t password_hex              protocol::vmess::id::from_password (the VMess credential: a UUID in text form) -> OK cmdkey_hex | ERR
+//! cfgfield  \t side \t field \t key_hex     the full documented ServerConfig object with ONE key spelled as given (field = host | port |
+//!                                           password | protocol | cipher | mode | ssl | ws | quic | user | ssl.certificateFile | ssl.keyFile |
+//!                                           ssl.serverName | quic.certificateFile | ws.path | ws.header)
+//!                                           -> OK <Cipher> <Protocol> <Mode> ssl=b ws=b quic=b user=n | ERR
+//! cfgraw    \t side \t field \t shape       the same object with the VALUE of one top-level field replaced by a JSON value of the given
+//!                                           shape (see shape_json: null | true | num | float | arr | obj | str:<hex> | tag:<hex> | tagv:<hex> |
+//!                                           arrs:<hex> | int:<text> | sec:<key>=<t>,.. | usr:<n>:<t>:<t>) -> as cfgfield
 use std::io::Write;
 use std::sync::Arc;
 
@@ -237,9 +245,101 @@ pub fn exec(f: &[&str]) -> Vec<String> {
             };
             if ok { "OK".to_string() } else { "ERR".to_string() }
         }
+        "cfgvmid" => match octo_squirrel::protocol::vmess::id::from_password(&text(f[1])) {
+            Ok(k) => format!("OK {}", hex(&k)),
+            Err(_) => "ERR".into(),
+        },
+        "cfgfield" | "cfgraw" => {
+            let json = if f[0] == "cfgfield" { full_object_json(f[1], true, f[2], &text(f[3])) } else { full_object_json(f[1], false, f[2], &shape_json(f[3])) };
+            fn show<S: Clone + Default>(c: &ServerConfig<S>) -> String {
+                format!("{} user={}", show_object(c), c.user.len())
+            }
+            if f[1] == "server" {
+                serde_json::from_str::<ServerConfig<sh::SslConfig>>(&json).map(|c| show(&c)).unwrap_or_else(|_| "ERR".into())
+            } else {
+                serde_json::from_str::<ServerConfig<ch::SslConfig>>(&json).map(|c| show(&c)).unwrap_or_else(|_| "ERR".into())
+            }
+        }
         _ => "UNKNOWN".into(),
     });
     vec![r.unwrap_or_else(|_| "PANIC".into())]
+}
+
+/// JSON text of a value shape.  t = s string | n null | i number | o {} | a [] | m {"A": 1} | h {"A": "b"} | - absent
+fn shape_json(code: &str) -> String {
+    let ty = |t: &str| match t {
+        "s" => "\"x\"".to_string(),
+        "n" => "null".into(),
+        "i" => "1".into(),
+        "o" => "{}".into(),
+        "a" => "[]".into(),
+        "m" => "{\"A\": 1}".into(),
+        "h" => "{\"A\": \"b\"}".into(),
+        _ => panic!("harness: value type"),
+    };
+    let (head, arg) = code.split_once(':').unwrap_or((code, ""));
+    match head {
+        "null" => "null".into(),
+        "true" => "true".into(),
+        "num" => "0".into(),
+        "float" => "1.5".into(),
+        "arr" => "[]".into(),
+        "obj" => "{}".into(),
+        "str" => json_str(&text(arg)),
+        "tag" => format!("{{{}: null}}", json_str(&text(arg))),
+        "tagv" => format!("{{{}: {{}}}}", json_str(&text(arg))),
+        "arrs" => format!("[{}]", json_str(&text(arg))),
+        "int" => arg.to_string(),
+        "sec" => {
+            let fs: Vec<String> = arg.split(',').filter(|x| !x.is_empty()).map(|kv| {
+                let (k, t) = kv.split_once('=').expect("sec key=type");
+                format!("{}: {}", json_str(k), ty(t))
+            }).collect();
+            format!("{{{}}}", fs.join(", "))
+        }
+        "usr" => {
+            let p: Vec<&str> = arg.split(':').collect();
+            let n: usize = p[0].parse().unwrap();
+            let mut fs = Vec::new();
+            if p[1] != "-" {
+                fs.push(format!("\"name\": {}", ty(p[1])));
+            }
+            if p[2] != "-" {
+                fs.push(format!("\"password\": {}", ty(p[2])));
+            }
+            format!("[{}]", vec![format!("{{{}}}", fs.join(", ")); n].join(", "))
+        }
+        _ => panic!("harness: shape code"),
+    }
+}
+
+/// the documented object with every optional field and section present; `field` names the key (rename = true) or the value
+/// (rename = false) that is replaced by `with` (a key is JSON-quoted here, a value is inserted as the JSON text it is)
+fn full_object_json(side: &str, rename: bool, field: &str, with: &str) -> String {
+    let k = |name: &str| if rename && field == name { json_str(with) } else { json_str(name.rsplit('.').next().unwrap()) };
+    let v = |name: &str, doc: String| if !rename && field == name { with.to_string() } else { doc };
+    let sect = |pre: &str| {
+        let mut fs = vec![format!("{}: \"/path/to/certificate.crt\"", k(&format!("{}.certificateFile", pre)))];
+        if side == "server" || pre == "quic" {
+            fs.push(format!("{}: \"/path/to/key.crt\"", k(&format!("{}.keyFile", pre))));
+        }
+        fs.push(format!("{}: \"\"", k(&format!("{}.serverName", pre))));
+        format!("{{{}}}", fs.join(", "))
+    };
+    let ws = format!("{{{}: {{\"Host\": \"example.com\"}}, {}: \"/ws\"}}", k("ws.header"), k("ws.path"));
+    let fields = vec![
+        format!("{}: {}", k("host"), v("host", "\"127.0.0.1\"".into())),
+        format!("{}: {}", k("port"), v("port", "1".into())),
+        format!("{}: {}", k("password"), v("password", "\"pw\"".into())),
+        format!("{}: {}", k("protocol"), v("protocol", "\"vmess\"".into())),
+        format!("{}: {}", k("cipher"), v("cipher", "\"aes-128-gcm\"".into())),
+        format!("{}: {}", k("mode"), v("mode", "\"tcp_and_udp\"".into())),
+        format!("{}: {}", k("ssl"), v("ssl", sect("ssl"))),
+        format!("{}: {}", k("ws"), v("ws", ws)),
+        format!("{}: {}", k("quic"), v("quic", sect("quic"))),
+        format!("{}: {}", k("user"), v("user", "[{\"name\": \"u\", \"password\": \"p\"}]".into())),
+    ];
+    format!("{{{}}}", fields.join(", "))
 }
 
 // ------------------------------------------------------------------------------------------------
@@ -538,6 +638,242 @@ pub fn generate(w: &mut dyn Write, seed: u64, thorough: bool) {
     for (side, net) in [("client", "tcp"), ("client", "udp"), ("server", "tcp")] {
         for (v, _) in KINDS.iter() {
             for pw in path_pws.iter() {
+                emit(vec!["cfgpath".into(), side.into(), net.into(), v.to_string(), h(pw)]);
+            }
+        }
+    }
+
+    // ------------------------------------------------------------------------------------------------
+    // dimension audit (seeded/audit/aud-misc.md)
+    let mut rng = Rng::new(seed ^ 0x6366_6761_7564_3031);
+    // 7. the VMess credential: a UUID in text form.  Accepted spellings (hyphenated, 32 hex digits, braced, urn:uuid:, either
+    //    case) and near misses of each: length, one character, hyphen positions, wrappers, white space, other digits
+    let uuid = "b831381d-6324-4d53-ad4f-8cda48b30811";
+    let simple = uuid.replace('-', "");
+    let mut ids: Vec<String> = vec![
+        uuid.into(), uuid.to_uppercase(), "B831381d-6324-4D53-aD4f-8cda48B30811".into(), simple.clone(), simple.to_uppercase(),
+        format!("{{{}}}", uuid), format!("urn:uuid:{}", uuid), format!("URN:UUID:{}", uuid), format!("Urn:uuid:{}", uuid), format!("urn:uuid:{}", uuid.to_uppercase()),
+        format!("{{{}}}", simple), format!("urn:uuid:{}", simple), format!("{{{}", uuid), format!("{}}}", uuid), format!("({})", uuid), format!("[{}]", uuid), format!("\"{}\"", uuid),
+        format!("{{urn:uuid:{}}}", uuid), format!("urn:uuid:{{{}}}", uuid), format!("uuid:{}", uuid), format!("urn:{}", uuid),
+        format!("{} ", uuid), format!(" {}", uuid), format!("{}\n", uuid), format!("{}\r\n", uuid), format!("\t{}", uuid), format!("{}\u{0}", uuid),
+        uuid[..35].into(), uuid[1..].into(), format!("{}0", uuid), format!("0{}", uuid), simple[..31].into(), format!("{}0", simple), format!("{}{}", simple, simple),
+        uuid.replace('-', "_"), uuid.replace('-', " "), uuid.replace('-', ":"), uuid.replace('-', "\u{2010}"), uuid.replace('-', "--"),
+        "b831381d6-324-4d53-ad4f-8cda48b30811".into(), "b831381-d6324-4d53-ad4f-8cda48b30811".into(), "b831381d-63244d53-ad4f-8cda48b30811-".into(), "-b831381d-6324-4d53-ad4f8cda48b30811".into(),
+        "b831381d-6324-4d53-ad4f-8cda48b3081g".into(), "g831381d-6324-4d53-ad4f-8cda48b30811".into(), "+831381d-6324-4d53-ad4f-8cda48b30811".into(), "0x31381d-6324-4d53-ad4f-8cda48b30811".into(),
+        "\u{ff42}831381d-6324-4d53-ad4f-8cda48b308".into(), "\u{0668}831381d-6324-4d53-ad4f-8cda48b3081".into(),
+        "00000000-0000-0000-0000-000000000000".into(), "ffffffff-ffff-ffff-ffff-ffffffffffff".into(), "FFFFFFFFFFFFFFFFFFFFFFFFFFFFFFFF".into(), "00000000000000000000000000000000".into(),
+        "".into(), "-".into(), "----".into(), "{}".into(), "urn:uuid:".into(), "password".into(), "pw".into(), unit_test_pw.into(), keys_by_len[16].clone(), keys_by_len[24].clone(),
+        "0123456789abcdef".into(), "0123456789abcdef0123456789abcdef0123".into(),
+    ];
+    let uc: Vec<char> = uuid.chars().collect();
+    for i in 0..uc.len() {
+        for r in ['g', '-', '0', 'F', ' '] {
+            if thorough || r == 'g' || (r == '-' && i % 3 == 0) || (r == 'F' && i % 5 == 0) {
+                let mut m = uc.clone();
+                m[i] = r;
+                ids.push(m.iter().collect());
+            }
+        }
+        let mut d = uc.clone();
+        d.remove(i);
+        ids.push(d.iter().collect());
+        if thorough {
+            let mut d = uc.clone();
+            d.insert(i, uc[i]);
+            ids.push(d.iter().collect());
+        }
+    }
+    for _ in 0..(if thorough { 3000 } else { 250 }) {
+        let len = *rng.pick(&[0usize, 1, 16, 31, 32, 32, 33, 35, 36, 36, 36, 37, 38, 38, 44, 45, 45, 46]);
+        let alphabet: Vec<char> = "0123456789abcdefABCDEF".chars().collect();
+        let mut v: Vec<char> = (0..len).map(|_| *rng.pick(&alphabet)).collect();
+        let shape = rng.below(4);
+        let base = match (shape, len) { (1, 38) => 1, (2, 45) => 9, _ => 0 };
+        if shape == 1 && len == 38 {
+            v[0] = '{';
+            v[37] = '}';
+        }
+        if shape == 2 && len == 45 {
+            for (i, c) in "urn:uuid:".chars().enumerate() {
+                v[i] = c;
+            }
+        }
+        if len >= base + 36 && rng.chance(4, 5) {
+            for h in [8usize, 13, 18, 23] {
+                v[base + h] = '-';
+            }
+        }
+        if len > 0 && rng.chance(1, 6) {
+            let i = rng.below(len as u64) as usize;
+            v[i] = *rng.pick(&['g', '-', ' ', '{', '}', ':', 'G', '\u{e9}']);
+        }
+        ids.push(v.iter().collect());
+    }
+    let mut seen_ids = std::collections::HashSet::new();
+    for id in ids.iter() {
+        if seen_ids.insert(id.clone()) {
+            emit(vec!["cfgvmid".into(), h(id)]);
+        }
+    }
+
+    // 8. the NAMES OF THE KEYS of the configuration object (serde field names): the documented spelling, case variants,
+    //    snake / kebab spellings, the names other tools use, a name that is another key of the same object (duplicate), the empty name
+    let fields: [(&str, &[&str]); 16] = [
+        ("host", &["Host", "HOST", "hostname", "server", "address", "addr"]),
+        ("port", &["Port", "PORT", "server_port", "serverPort"]),
+        ("password", &["Password", "PASSWORD", "passwd", "pass", "key", "psk", "id", "uuid"]),
+        ("protocol", &["Protocol", "PROTOCOL", "type", "proto"]),
+        ("cipher", &["Cipher", "CIPHER", "method", "encryption", "security", "ciphers"]),
+        ("mode", &["Mode", "MODE", "network", "modes"]),
+        ("ssl", &["SSL", "Ssl", "tls", "TLS", "sslConfig", "ssl_config"]),
+        ("ws", &["WS", "Ws", "websocket", "webSocket", "wss"]),
+        ("quic", &["QUIC", "Quic", "http3"]),
+        ("user", &["User", "USER", "users", "clients"]),
+        ("ssl.certificateFile", &["certificatefile", "CertificateFile", "certificate_file", "certificate-file", "certFile", "cert", "certificate"]),
+        ("ssl.keyFile", &["keyfile", "KeyFile", "key_file", "key-file", "key"]),
+        ("ssl.serverName", &["servername", "ServerName", "server_name", "server-name", "sni"]),
+        ("quic.certificateFile", &["certificatefile", "certificate_file"]),
+        ("ws.path", &["Path", "PATH", "uri"]),
+        ("ws.header", &["Header", "headers", "HEADER"]),
+    ];
+    for side in ["client", "server"] {
+        for (field, alts) in fields.iter() {
+            if side == "client" && *field == "ssl.keyFile" {
+                continue; // the documented client `ssl` section has no keyFile
+            }
+            let doc = field.rsplit('.').next().unwrap();
+            let mut spell: Vec<String> = vec![doc.to_string(), format!("{} ", doc), format!(" {}", doc), String::new(), format!("{}\u{0}", doc), format!("{}s", doc), doc[..doc.len() - 1].to_string()];
+            spell.extend(alts.iter().map(|x| x.to_string()));
+            // another key of the same object
+            spell.extend(match *field {
+                f if f.starts_with("ssl.") || f.starts_with("quic.") => vec!["certificateFile".to_string(), "keyFile".into(), "serverName".into()],
+                f if f.starts_with("ws.") => vec!["path".to_string(), "header".into()],
+                _ => vec!["host".to_string(), "cipher".into(), "mode".into(), "ssl".into(), "user".into()],
+            });
+            let mut seen_spell = std::collections::HashSet::new();
+            for sp in spell {
+                if seen_spell.insert(sp.clone()) {
+                    emit(vec!["cfgfield".into(), side.into(), field.to_string(), h(&sp)]);
+                }
+            }
+        }
+    }
+
+    // 9. VALUES that are not what the field expects: JSON null / booleans / numbers / arrays / objects where a name is expected,
+    //    a name where a section is expected, sections with missing / null / mistyped members, user tables of 0 / 1 / 3 entries with
+    //    missing / mistyped members, port numbers at and beyond the edges of u16
+    let mut name_shapes: Vec<String> = ["null", "true", "num", "float", "arr", "obj"].iter().map(|x| x.to_string()).collect();
+    for n in ["", "tcp", "udp", "tcp_and_quic", "aes-128-gcm", "chacha20-ietf-poly1305", "vmess", "trojan", "Unknown", "TCP", "Tcp"] {
+        for k in ["str", "tag", "tagv", "arrs"] {
+            name_shapes.push(format!("{}:{}", k, h(n)));
+        }
+    }
+    let tys = ["s", "n", "i", "o", "a"];
+    let mut sect_shapes: Vec<String> = ["null", "true", "num", "float", "obj"].iter().map(|x| x.to_string()).collect();
+    sect_shapes.push(format!("str:{}", h("/path")));
+    sect_shapes.push(format!("str:{}", h("")));
+    for t in tys {
+        sect_shapes.push(format!("sec:certificateFile={},keyFile=s,serverName=s", t));
+        sect_shapes.push(format!("sec:certificateFile=s,keyFile={},serverName=s", t));
+        sect_shapes.push(format!("sec:certificateFile=s,keyFile=s,serverName={}", t));
+        sect_shapes.push(format!("sec:certificateFile={}", t));
+        sect_shapes.push(format!("sec:path={}", t));
+        sect_shapes.push(format!("sec:header={}", t));
+        sect_shapes.push(format!("sec:path=s,header={}", t));
+        sect_shapes.push(format!("sec:other={}", t));
+    }
+    for x in ["sec:certificateFile=s,keyFile=s", "sec:keyFile=s,serverName=s", "sec:certificateFile=s,serverName=s", "sec:header=m", "sec:header=h", "sec:header=h,path=s,certificateFile=s,keyFile=s,serverName=s",
+              "sec:certificateFile=n,keyFile=n,serverName=n", "sec:path=n,header=n"] {
+        sect_shapes.push(x.to_string());
+    }
+    let mut user_shapes: Vec<String> = ["null", "true", "num", "arr", "obj"].iter().map(|x| x.to_string()).collect();
+    user_shapes.push(format!("str:{}", h("u")));
+    for n in [0usize, 1, 3] {
+        for tn in ["s", "n", "i", "-"] {
+            for tp in ["s", "n", "o", "-"] {
+                user_shapes.push(format!("usr:{}:{}:{}", n, tn, tp));
+            }
+        }
+    }
+    let port_shapes: Vec<String> = ["0", "1", "80", "65535", "65536", "65537", "99999", "4294967296", "4294967297", "18446744073709551616", "-1", "-65535", "00", "01", "+1", "0x10", " 1 ", "1 "]
+        .iter().map(|x| format!("int:{}", x)).chain(["null", "true", "float", "arr", "obj"].iter().map(|x| x.to_string())).chain([format!("str:{}", h("1")), format!("str:{}", h(""))]).collect();
+    let text_shapes: Vec<String> = ["null", "true", "num", "float", "arr", "obj"].iter().map(|x| x.to_string())
+        .chain(["", "x", "127.0.0.1", "\u{e9}\u{0}\n\"\\"].iter().flat_map(|t| [format!("str:{}", h(t)), format!("arrs:{}", h(t)), format!("tag:{}", h(t))])).collect();
+    for side in ["client", "server"] {
+        for (fields, shapes) in [(&["cipher", "protocol", "mode"][..], &name_shapes), (&["ssl", "ws", "quic"][..], &sect_shapes), (&["user"][..], &user_shapes), (&["port"][..], &port_shapes), (&["host", "password"][..], &text_shapes)] {
+            for f in fields {
+                for v in shapes.iter() {
+                    emit(vec!["cfgraw".into(), side.into(), f.to_string(), v.clone()]);
+                }
+            }
+        }
+    }
+
+    // 10. key texts with white space inside / around (line-wrapped base64, tabs, CR LF), url-safe and unpadded spellings of
+    //     EVERY key length 15..=33, chains of 3 / 4 / 12 keys, a chain with one key too short / too long / malformed in each position;
+    //     and the chains through every kind's own path (a cipher without identity headers is given identity keys all the same)
+    let mut key_texts: Vec<String> = Vec::new();
+    for len in [15usize, 16, 17, 31, 32, 33] {
+        let k = &keys_by_len[len];
+        let mid = k.len() / 2;
+        key_texts.push(format!("{}\n{}", &k[..mid], &k[mid..]));
+        key_texts.push(format!("{}\r\n{}", &k[..mid], &k[mid..]));
+        key_texts.push(format!("{} {}", &k[..mid], &k[mid..]));
+        key_texts.push(format!("{}\t", k));
+        key_texts.push(format!("\r\n{}", k));
+        key_texts.push(format!("{}\r", k));
+        key_texts.push(k.trim_end_matches('=').to_string());
+        key_texts.push(k.replace('+', "-").replace('/', "_"));
+        key_texts.push(k.replace('+', "-").replace('/', "_").trim_end_matches('=').to_string());
+        key_texts.push(k.replace('=', "%3D"));
+        key_texts.push(k.replace('=', "."));
+    }
+    for n in [16usize, 32] {
+        let k = &keys_by_len[n];
+        for count in [3usize, 4, 12] {
+            key_texts.push(vec![k.clone(); count].join(":"));
+            for bad_pos in 0..count.min(4) {
+                for bad in [keys_by_len[n - 1].clone(), keys_by_len[n + 1].clone(), "!".to_string(), String::new(), format!("{} ", k)] {
+                    let mut parts = vec![k.clone(); count];
+                    parts[bad_pos] = bad;
+                    key_texts.push(parts.join(":"));
+                }
+            }
+        }
+        let distinct: Vec<String> = (0..4).map(|_| Base64::encode_string(&rng.bytes(n))).collect();
+        key_texts.push(distinct.join(":"));
+        key_texts.push(distinct[..2].join(":"));
+        key_texts.push(format!("{}: {}", distinct[0], distinct[1]));
+        key_texts.push(format!("{} :{}", distinct[0], distinct[1]));
+        key_texts.push(format!("{},{}", distinct[0], distinct[1]));
+        key_texts.push(format!("{}|{}", distinct[0], distinct[1]));
+        key_texts.push(format!("{}\n{}", distinct[0], distinct[1]));
+    }
+    for t in key_texts.iter() {
+        emit(vec!["cfgb64".into(), h(t)]);
+        for n in [16usize, 32] {
+            emit(vec!["cfgkeys".into(), n.to_string(), h(t)]);
+            emit(vec!["cfguser".into(), n.to_string(), h(t)]);
+        }
+    }
+    let mut path_extra: Vec<String> = Vec::new();
+    for n in [16usize, 32] {
+        let k = &keys_by_len[n];
+        path_extra.push(vec![k.clone(); 3].join(":"));
+        path_extra.push(vec![k.clone(); 12].join(":"));
+        path_extra.push(format!("{}:{}:{}", k, keys_by_len[n - 1], k));
+        path_extra.push(format!("{}:", k));
+        path_extra.push(format!(":{}", k));
+        path_extra.push(format!("{}\n", k));
+        path_extra.push(k.replace('+', "-").replace('/', "_").trim_end_matches('=').to_string());
+    }
+    path_extra.push(":".into());
+    path_extra.push(" ".into());
+    path_extra.push("\u{0}".into());
+    path_extra.push("a".repeat(1000));
+    for (side, net) in [("client", "tcp"), ("client", "udp"), ("server", "tcp")] {
+        for (v, _) in KINDS.iter() {
+            for pw in path_extra.iter() {
                 emit(vec!["cfgpath".into(), side.into(), net.into(), v.to_string(), h(pw)]);
             }
         }
